@@ -43,6 +43,12 @@ def shards_for(run: Run) -> list[dict]:
         dig = dig[:1600]
     for j in range(16):
         shards.append({"prop": PROP, "judges": JUDGES, "modes": MODES, "source": "stackdig", "indices": dig[j::16], "seed": seed_int(PROP, run.seed, "dg", j), "cap": 40, "maxlen": 2, "sample_at": 10**9})
+    swp = list(range(G.stack_swap_size()))
+    random.Random(seed_int(PROP, run.seed, "swap")).shuffle(swp)
+    if run.quick:
+        swp = swp[:1600]
+    for j in range(16):
+        shards.append({"prop": PROP, "judges": JUDGES, "modes": MODES, "source": "stackswap", "indices": swp[j::16], "seed": seed_int(PROP, run.seed, "sw", j), "cap": 20, "maxlen": 1, "sample_at": 10**9})
     idx = list(range(G.matrix_size()))
     rnd = random.Random(seed_int(PROP, run.seed, "m"))
     rnd.shuffle(idx)
